@@ -103,16 +103,17 @@ theorem draw_terminates {G : Type} (width : G → Int) (m : TextInput.TI G) (pro
     (match TextInput.draw width m prompt winW with | .hang => false | _ => true) = true :=
   draw_not_hang width m prompt winW hoff hcur
 
-/-- `cursor_column` (textinput): while prompt + text + scrolloff fit in the window and the view is not
-scrolled, `Draw` keeps the offset at 0 and shows the cursor in column prompt width + display width
-of the ideal editor's text before its cursor. (`col` is the column after the prompt.) -/
+/-- `cursor_column` (textinput): while prompt + text + scrolloff fit in the window — whatever the
+scroll offset left behind by earlier draws (F117 fix) — `Draw` resets the offset to 0 and shows the
+cursor in column prompt width + display width of the ideal editor's text before its cursor.
+(`col` is the column after the prompt.) -/
 theorem textinput_cursor_column {G : Type} (width : G → Int) (hw : ∀ g, 0 ≤ width g)
-    (m : TextInput.TI G) (prompt : List G) (winW col : Int) (hinv : TIInv m) (hoff : m.offset = 0)
+    (m : TextInput.TI G) (prompt : List G) (winW col : Int) (hinv : TIInv m)
     (hp : TextInput.promptLoop width winW prompt 0 = some col) (hcol : 0 ≤ col)
     (hfit : col + widthSumI width m.content + 4 < winW) :
     TextInput.draw width m prompt winW =
-      .shown m (col + widthSumI width ((tiAbs m).text.take (tiAbs m).cursor)) :=
-  draw_cursor_fit width hw m prompt winW col hinv hoff hp hcol hfit
+      .shown { m with offset := 0 } (col + widthSumI width ((tiAbs m).text.take (tiAbs m).cursor)) :=
+  draw_cursor_fit width hw m prompt winW col hinv hp hcol hfit
 
 /-- Non-vacuity of `textinput_cursor_column`: "世a" with the cursor at the end in a 12-column window
 with a 2-column prompt shows the cursor in column 5. -/
